@@ -133,8 +133,16 @@ def run():
         for tm in ("relative", "absolute"):
             items.append(("classify[%s,%s]" % (sm, tm), lambda r, sm=sm, tm=tm: _classify(r, [sm], [tm])))
     items.append(("getdistances", _getdistances))
+    items.append(("dimensionality", _dimensionality))
     sections_parallel(rep, items)
     return rep
+
+
+def _dimensionality(rep):
+    """'the dimensionality of the wrapped structure' is what get_dimensionality computes under its contract (C09): its obligations are part of
+    this check, so that a change inside it is reported here as well"""
+    from props import C09
+    C09._dim(rep)
 
 
 def _getdistances(rep):
@@ -331,6 +339,16 @@ def replay(ob):
              # bonded only through the cell boundary, in partially periodic cells
              ("C sheet bonded across the boundary", Atoms("C2", scaled_positions=[[0.1, 0.1, 0.5], [0.9, 0.9, 0.5]], cell=[5.2, 5.2, 15], pbc=[True, True, False])),
              ("C ladder bonded across the boundary", Atoms("C2", scaled_positions=[[0.5, 0.5, 0.12], [0.5, 0.5, 0.88]], cell=[12, 12, 5.6], pbc=[False, False, True]))]
+    # a threshold above the default: sheets 6.0 A apart are bonded (6.0 - 2*0.76 = 4.48 <= 5.0), the stack is three-dimensional
+    from ase.build import graphene as _gr
+    stack = _gr(size=(3, 3, 1), vacuum=None)
+    cst = np.array(stack.get_cell()); cst[2] = [0, 0, 6.0]; stack.set_cell(cst); stack.set_pbc(True)
+    try:
+        r = Classifier(cluster_threshold=5.0).classify(stack)
+        if not isinstance(r, C.Class3D):
+            fails.append({"structure": "graphene sheets 6.0 A apart, cluster_threshold=5.0", "observed": "class %s, expected Class3D (sheets bonded: 4.48 A <= 5.0 A)" % type(r).__name__})
+    except Exception as e:  # noqa
+        fails.append({"structure": "graphene sheets 6.0 A apart, cluster_threshold=5.0", "observed": "%s: %s" % (type(e).__name__, e)})
     for name, at in extra + structures():
         if name == "degenerate cell":
             continue
